@@ -361,37 +361,37 @@ REGISTRY = {
 
 # what each check decides / does not decide (goes into MANIFEST.json)
 CLAIMS = {
-    "C01": {"decided": "Static rules over MIR, all call sites/paths: every string/key command named in the property has a dispatcher arm reaching the engine with the effect class (read-only vs mutating) and storage primitive its reference semantics need; no validation refusal is reachable after a dataset mutation in any handler or engine method (failure atomicity); stored integers are read through the std i64 parser plus a round trip (canonical decimal form, whole i64 range) by the INCR family. In-place modifying commands put a fresh StoredValue (no TTL) into the key space only where the key has no live entry (path-sensitive). Engine methods behind commands whose success always writes (APPEND, INCR family, LPUSH/RPUSH, XADD) reach an Ok result only through a mutation. Every bytes-only argument the command layer hands to the storage engine carries the client's bytes (no lossy / UTF-8-only decoding, case mapping or cutting on its value flow in the handler). The vector KEYS returns is filled only under the glob matcher (no answer built from the pattern itself). The command layer does not re-order (key, value) pairs collected from the command before applying them.",
+    "C01": {"decided": "Static rules over MIR, all call sites/paths: every string/key command named in the property has a dispatcher arm reaching the engine with the effect class (read-only vs mutating) and storage primitive its reference semantics need; no validation refusal is reachable after a dataset mutation in any handler or engine method (failure atomicity); stored integers are read through the std i64 parser plus a round trip (canonical decimal form, whole i64 range) by the INCR family. In-place modifying commands put a fresh StoredValue (no TTL) into the key space only where the key has no live entry (path-sensitive). Engine methods behind commands whose success always writes (APPEND, INCR family, LPUSH/RPUSH, XADD) reach an Ok result only through a mutation. Every bytes-only argument the command layer hands to the storage engine carries the client's bytes (no lossy / UTF-8-only decoding, case mapping or cutting on its value flow in the handler). The vector KEYS returns is filled only under the glob matcher (no answer built from the pattern itself). The command layer does not re-order (key, value) pairs collected from the command before applying them. A start index still below 0 after counting from the end is never answered with the empty result (GETRANGE).",
             "not_decided": "that each reply value and resulting dataset equal the Redis reference (index arithmetic, NX/XX truth tables, glob semantics)."},
     "C02": {"decided": "Lazy expiry: every shard-map lookup in an engine method flows into is_expired(); the sweeper deletes only under a re-check of the stored deadline in the same lock scope; the deadline is written only by dedicated setters called from dedicated TTL functions; inserts store a fresh StoredValue or (RENAME) the removed one; expiry index updated with the deadline. TTL survives in-place modifications (fresh StoredValue only where the key has no live entry); only the sweeper reads the expiry index; dump deadlines use a clock read in the same invocation; per-record loader state never leaks into the next record. RENAME moves the entry as a whole (never writes `.value` of an entry already in the map). A key whose collection a command empties is removed with its metadata (R-EMPTY): a re-created key cannot inherit the old deadline. A stored entry moved to another key (RENAME) gets its expiry-index entry under the new key.",
             "not_decided": "real-time exactness of Instant comparisons, TTL reply rounding, sweeper scheduling."},
-    "C03": {"decided": "Every list/set/hash command has a dispatcher arm with the right effect class and the storage primitive its semantics need (LPUSH front insertion, RPOP back removal, ...); failure atomicity (no refusal after a mutation) in handlers and engine methods; every shrinking engine method has an emptiness test followed by removal of the key; HINCRBY reads stored integers canonically; no loop removes at an ascending index and advances it in the same iteration (adjacent matches skipped). A missing later key is the empty set in SUNION/SDIFF (skipped) and SINTER (empty result). Behind LINDEX / LSET the index of the element access carries no clamping or wrapping step on its value flow unless a comparison of the index against the length dominates the access. Index ranges never clamp the stop index from below (a stop below -len is the empty range); bytes-only engine arguments carry the client's bytes. HSET / HMSET overwrite an occupied field entry too (no vacant-only insertion). The command layer does not re-order pairs / list elements collected from the command before applying them.",
+    "C03": {"decided": "Every list/set/hash command has a dispatcher arm with the right effect class and the storage primitive its semantics need (LPUSH front insertion, RPOP back removal, ...); failure atomicity (no refusal after a mutation) in handlers and engine methods; every shrinking engine method has an emptiness test followed by removal of the key; HINCRBY reads stored integers canonically; no loop removes at an ascending index and advances it in the same iteration (adjacent matches skipped). A missing later key is the empty set in SUNION/SDIFF (skipped) and SINTER (empty result). Behind LINDEX / LSET the index of the element access carries no clamping or wrapping step on its value flow unless a comparison of the index against the length dominates the access. Index ranges never clamp the stop index from below (a stop below -len is the empty range); bytes-only engine arguments carry the client's bytes. HSET / HMSET overwrite an occupied field entry too (no vacant-only insertion). The command layer does not re-order pairs / list elements collected from the command before applying them. SRANDMEMBER's with-repetition loop does not depend on the cardinality; a negative resolved start of LRANGE / LTRIM is never answered empty.",
             "not_decided": "order/index arithmetic, LREM direction and count, set algebra results, random-pick distribution."},
-    "C04": {"decided": "No score reaches SkipList::insert without a dominating NaN refusal of that value; refused multi-member ZADD adds nothing; key index, node links and length stay in step (pairing, re-score unlinks before linking, who-writes length); removing the last member removes the key; dispatcher arms with the right skip-list primitive; both comparators are the lexicographic (score, member) order with arguments in order; the three search loops agree (full comparator, advance on Less only); no in-place overwrite of a linked node's ordering key under a tie-admitting bare score comparison; every path after the index update links a node. An engine method that writes scores returns success only after handing the score to SkipList::insert (or after an exact == showed nothing changes). Each ZADD front end tests every parsed score for NaN itself, before the first engine call. Score-range answers come from a call that received both bounds (or sit behind exact tests of both); no score-range call gets the finite extremes f64::MIN / f64::MAX as a bound; rank ranges are dominated by a start-versus-length test in both directions and never clamp the stop from below; member bytes reach the engine unaltered. A range bound computed as `count - 1` is dominated by a comparison of that value with 0 or 1. The command layer does not re-order the (score, member) pairs it collected from the command before writing them.",
+    "C04": {"decided": "No score reaches SkipList::insert without a dominating NaN refusal of that value; refused multi-member ZADD adds nothing; key index, node links and length stay in step (pairing, re-score unlinks before linking, who-writes length); removing the last member removes the key; dispatcher arms with the right skip-list primitive; both comparators are the lexicographic (score, member) order with arguments in order; the three search loops agree (full comparator, advance on Less only); no in-place overwrite of a linked node's ordering key under a tie-admitting bare score comparison; every path after the index update links a node. An engine method that writes scores returns success only after handing the score to SkipList::insert (or after an exact == showed nothing changes). Each ZADD front end tests every parsed score for NaN itself, before the first engine call. Score-range answers come from a call that received both bounds (or sit behind exact tests of both); no score-range call gets the finite extremes f64::MIN / f64::MAX as a bound; rank ranges are dominated by a start-versus-length test in both directions and never clamp the stop from below; member bytes reach the engine unaltered. A range bound computed as `count - 1` is dominated by a comparison of that value with 0 or 1. The command layer does not re-order the (score, member) pairs it collected from the command before writing them. A negative resolved start of ZRANGE / ZREVRANGE is never answered empty.",
             "not_decided": "correctness of the tower pointer surgery, comparator totality on -0/inf, agreement of rank and range queries (need execution or a proof of the data structure)."},
-    "C05": {"decided": "Error discipline and reply counting of the connection loop on all CFG paths: an Err from executing a frame is converted to an error reply unless Connection/Io; exactly one reply push per loop iteration and no mid-batch exit; protocol errors are queued/answered and the connection closed; line-framed reply payloads pass a CR/LF filter; nothing reachable from EXEC yields NoResponse; the loop draining the parser is left only when parse_frame reports an incomplete buffer or an error (no complete command is stranded until the next read). The parser loop drains complete frames; no protocol error is decided from bytes that have not arrived (length guard must cover what a non-panicking content test looks at); Io-class errors cannot leave a command handler. Once Connection::read has fed the parser it returns `data available` (no error / `nothing read` exit after a feed, path-sensitive). Every write to the non-blocking client socket is a partial write of write_buffer[write_offset..] whose returned count is added to write_offset (no write_all / write!). An inline form recognised by a fixed-length comparison has a prefix test answering `incomplete` for a partial arrival. The timeout pass sends its nil reply only under a still-Blocked test (one reply per timed-out command). A (P)(UN)SUBSCRIBE handler that answers NoResponse has sent at least one frame on every path (the empty result has a reply of its own).",
+    "C05": {"decided": "Error discipline and reply counting of the connection loop on all CFG paths: an Err from executing a frame is converted to an error reply unless Connection/Io; exactly one reply push per loop iteration and no mid-batch exit; protocol errors are queued/answered and the connection closed; line-framed reply payloads pass a CR/LF filter; nothing reachable from EXEC yields NoResponse; the loop draining the parser is left only when parse_frame reports an incomplete buffer or an error (no complete command is stranded until the next read). The parser loop drains complete frames; no protocol error is decided from bytes that have not arrived (length guard must cover what a non-panicking content test looks at); Io-class errors cannot leave a command handler. Once Connection::read has fed the parser it returns `data available` (no error / `nothing read` exit after a feed, path-sensitive). Every write to the non-blocking client socket is a partial write of write_buffer[write_offset..] whose returned count is added to write_offset (no write_all / write!). An inline form recognised by a fixed-length comparison has a prefix test answering `incomplete` for a partial arrival. The timeout pass sends its nil reply only under a still-Blocked test (one reply per timed-out command). A (P)(UN)SUBSCRIBE handler that answers NoResponse has sent at least one frame on every path (the empty result has a reply of its own). In the aggregate parsers every `incomplete` exit is the None of a sub-parser (no size estimate from the announced count).",
             "not_decided": "TCP segmentation independence of the whole I/O state machine, reply order under partial writes."},
-    "C06": {"decided": "Interprocedural, type-restricted taint from client/wire numbers (str::parse, RespFrame::Integer) to panicking arithmetic (MIR overflow/neg/div/bounds asserts), indexing/slicing APIs, allocation sizes, float->Duration and clock arithmetic, with bounds derived by abstract interpretation over dominating comparisons, min/max/clamp and casts; bounded parser recursion; no client-timed sleep; script execution bound; lock re-entrancy; stream IDs (hand-written parser) and numbers read back from the stream's atomics are sources too; interprocedural error-origin analysis: only listener errors can propagate through `?` to Server::run (whose Err ends the process). Stored deadlines are bounded by a constant (the dump writers' unchecked clock arithmetic relies on it); no error reaches Server::run from storage/handlers; all client-driven recursion is depth-bounded. No closure run under a lock-holding higher-order function re-acquires that lock (also through generic-bound trait calls); no client-controlled iteration count without a bound or a data-dependent break. Every loop of the Lua -> RESP reply conversion that reads the Lua state has an exit decided by an element budget shared by the whole conversion.",
+    "C06": {"decided": "Interprocedural, type-restricted taint from client/wire numbers (str::parse, RespFrame::Integer) to panicking arithmetic (MIR overflow/neg/div/bounds asserts), indexing/slicing APIs, allocation sizes, float->Duration and clock arithmetic, with bounds derived by abstract interpretation over dominating comparisons, min/max/clamp and casts; bounded parser recursion; no client-timed sleep; script execution bound; lock re-entrancy; stream IDs (hand-written parser) and numbers read back from the stream's atomics are sources too; interprocedural error-origin analysis: only listener errors can propagate through `?` to Server::run (whose Err ends the process). Stored deadlines are bounded by a constant (the dump writers' unchecked clock arithmetic relies on it); no error reaches Server::run from storage/handlers; all client-driven recursion is depth-bounded. No closure run under a lock-holding higher-order function re-acquires that lock (also through generic-bound trait calls); no client-controlled iteration count without a bound or a data-dependent break. Every loop of the Lua -> RESP reply conversion that reads the Lua state has an exit decided by an element budget shared by the whole conversion. from_utf8_unchecked on the command path never takes bytes from outside; a loop that sleeps between retries never sets its attempt counter back.",
             "not_decided": "index / slice arithmetic on positions derived from the length of the data being scanned (seeded change C06-glob-class-at-pattern-end-slices-past-the-end is recorded as not detected: the taint domain is numbers from the client / wire / file); absence of all panics (only input-tainted ones), memory exhaustion by legitimately large data, liveness under slow peers; bounds are hi/lo abstractions, not exact ranges."},
     "C07": {"decided": "Queue gate dominance in process_frame, FIFO-only use of the queue, one result per queued command with no early exit, transaction-state reset on every exit of EXEC/DISCARD (and before execution), no event-loop re-entry from EXEC, identity of the connection handed to re-dispatched commands. No command is refused inside MULTI on a path that skips the queue step; re-dispatch happens with the executing connection; the EXEC-without-MULTI arm is the only exit that needs no reset. A refused transaction-control command writes nothing to the transaction state before its error reply. EXEC re-reads the connection's database before every queued command (a queued SELECT in any spelling governs what follows). Only MULTI / EXEC / DISCARD / WATCH act at once inside a transaction (UNWATCH acts at once only outside one).",
             "not_decided": "isolation against non-command threads (sweeper, replica apply); equality of each queued command's reply with its stand-alone reply."},
     "C08": {"decided": "Every dataset mutation site in the storage engine (incl. expiry purges) has a mark_modified of the same key (provenance) in the same function; was_modified_since compares the stamp and consults expiry; register_watch order; the abort test dominates execution and abort edges execute nothing; EXEC/DISCARD/UNWATCH clear the watch set on all paths. The check at EXEC and the unregistration at UNWATCH take the database from the watch record itself; WATCH of an already watched key keeps the first baseline.",
             "not_decided": "no-false-abort for hash collisions; timing of expiry vs EXEC."},
-    "C09": {"decided": "Writer/reader table agreement in rdb.rs: variant->opcode->constructed variant is the identity (both writers); length-class bounds, tags, masks, shifts and byte order consistent with the decoder; per-variant sequence of primitive writes equals the sequence of reads (loop nesting included); count = len() of the iterated collection; no in-band type decision; records with expiry never loaded persistent; database selector flow. Dataset text parsed as a number by the snapshot writer replaces the text only under a round trip; every reader function dispatching on the type byte consumes what the writer emits; per-record loader state is reset on every successful exit of its consumer. The record loader returns successfully only after handing the record's TTL to a storage call, or where the TTL is known to be None. No score-range call used by the writers gets the finite extremes f64::MIN / f64::MAX as a bound.",
+    "C09": {"decided": "Writer/reader table agreement in rdb.rs: variant->opcode->constructed variant is the identity (both writers); length-class bounds, tags, masks, shifts and byte order consistent with the decoder; per-variant sequence of primitive writes equals the sequence of reads (loop nesting included); count = len() of the iterated collection; no in-band type decision; records with expiry never loaded persistent; database selector flow. Dataset text parsed as a number by the snapshot writer replaces the text only under a round trip; every reader function dispatching on the type byte consumes what the writer emits; per-record loader state is reset on every successful exit of its consumer. The record loader returns successfully only after handing the record's TTL to a storage call, or where the TTL is known to be None. No score-range call used by the writers gets the finite extremes f64::MIN / f64::MAX as a bound. Every dump writer that reads a stream's entries also reads its last ID (known finding: neither does).",
             "not_decided": "equality of the loaded dataset for every dataset (needs execution), TTL clock granularity, consumer groups (not persisted)."},
     "C10": {"decided": "save() writes only a temp path and renames on the success continuation after a successful flush; single-writer guard held across the write; BGSAVE flag cleared on every exit incl. unwind; value+TTL of a key from one engine call and shared collections materialised once; no read result dropped in the loader, unknown opcodes refused; file-tainted lengths never reach unbounded allocation/arithmetic. Dump deadlines use a clock read in the invocation that read the key's TTL. The temp dump is opened create+truncate (never create_new / append), so the leftover of a failed save does not block or corrupt the next one. The dump reader's primitives use read_exact, or examine the count of a plain read (end of file is an error).",
             "not_decided": "crash-point atomicity below the file-system API (fsync), exact interleavings with commands beyond the single-acquisition clause."},
-    "C11": {"decided": "Write-set agreement: every dispatcher arm that can reach a dataset mutator is in is_write_command; every mutator call site reachable from the event loop lies under the append hook (gated, before dispatch); record carries the database; no random-outcome command appended verbatim; exactly one Array frame per command, flushed under every fsync policy. The hook rule is path-sensitive (flags, helpers): every mutating arm is entered only after the append, or under `not a write command` / `AOF off`; every Ok path of append_command passes a flush. A function that appends to the AOF itself does not also run the command through the dispatcher hook (represented once). A function that puts another file at the log path (a rewrite whose source it creates) re-opens the writer before it returns successfully. After the append hook no gate other than the command-name comparisons refuses without a handler having run (what is logged is dispatched).",
+    "C11": {"decided": "Write-set agreement: every dispatcher arm that can reach a dataset mutator is in is_write_command; every mutator call site reachable from the event loop lies under the append hook (gated, before dispatch); record carries the database; no random-outcome command appended verbatim; exactly one Array frame per command, flushed under every fsync policy. The hook rule is path-sensitive (flags, helpers): every mutating arm is entered only after the append, or under `not a write command` / `AOF off`; every Ok path of append_command passes a flush. A function that appends to the AOF itself does not also run the command through the dispatcher hook (represented once). A function that puts another file at the log path (a rewrite whose source it creates) re-opens the writer before it returns successfully. After the append hook no gate other than the command-name comparisons refuses without a handler having run (what is logged is dispatched). The log at the log path is opened in append mode by the function that stores it as the writer.",
             "not_decided": "that replay reproduces the dataset (the built-in replay is a stub); ordering between append and effect under failure."},
-    "C12": {"decided": "Sandbox list, blocked-command list (and nothing the executor implements escapes it), sibling-dispatcher parity (presence, effect class, storage primitive per catalogue command), EVALSHA = EVAL entry with caller's db and unmodified source, byte-safety of the Lua boundary, no event-loop re-entry from EVAL, failure atomicity of script-side commands; the two conversion functions agree cell by cell with the standard RESP<->Lua conversion table and array elements keep their index. The table->array conversion ends at the first nil; array replies are stored at their own index; every error of the shared call/pcall body is raised by the helper that branches on is_pcall. The two implementations of every catalogue command reach the same set of leaf engine methods. Every hand-over of a parsed command to the script-side executor carries the caller's database. Script-side range reads with a `count - 1` bound exclude count 0 first.",
+    "C12": {"decided": "Sandbox list, blocked-command list (and nothing the executor implements escapes it), sibling-dispatcher parity (presence, effect class, storage primitive per catalogue command), EVALSHA = EVAL entry with caller's db and unmodified source, byte-safety of the Lua boundary, no event-loop re-entry from EVAL, failure atomicity of script-side commands; the two conversion functions agree cell by cell with the standard RESP<->Lua conversion table and array elements keep their index. The table->array conversion ends at the first nil; array replies are stored at their own index; every error of the shared call/pcall body is raised by the helper that branches on is_pcall. The two implementations of every catalogue command reach the same set of leaf engine methods. Every hand-over of a parsed command to the script-side executor carries the caller's database. Script-side range reads with a `count - 1` bound exclude count 0 first. Entries leave the script cache only on the flush path (no eviction where a script is stored).",
             "not_decided": "reply equality after RESP->Lua conversion for every command and argument (two independent implementations; needs a differential run)."},
     "C13": {"decided": "Wake path pops only under a still-Blocked test, delivers on the Some edge and pushes back on failed delivery; an empty pop re-registers the client; a woken waiter loses all registrations under the registry lock; every list-growing arm notifies once per element; registry indexes and connection state updated together; both removal sites clean up; blocked connections polled. The decision to notify may depend on `something was pushed` (count > 0) only, never on the list's length; waiter queues keep FIFO order (no swap removal); unregistering removes every entry of the client. The timeout pass scans every registry on every call, or skips only under a cached deadline all of whose writes derive from the blocked clients' deadlines. Every Duration built from the parsed BLPOP/BRPOP timeout is reachable only through a non-zero test of that number (path-sensitive). After the wake-path pop every way out (also its error edge) answers the client or registers it again -- in the place its arrival time gives it, and after looking at its other keys; the loop executing the frames of one read stops once a frame left the connection blocked (known finding: it does not). The timeout pass answers a client once (reply under the still-Blocked test). The expiry function decides which queue entries to take out by the deadline alone (no membership test on ids controls a selection / removal): all registrations of a timed-out client leave in the same pass.",
             "not_decided": "FIFO service order, promptness, timeout accuracy, multiset conservation over whole histories."},
-    "C14": {"decided": "Per-connection sets and global maps updated together with the same connection id, emptied entries removed; acknowledged count = channels.len()+patterns.len() after the update; PUBLISH replies with the length of the list it delivers to; no per-connection de-duplication; pattern receivers only under a match test; closing connections always removed with full clean-up; a connection's subscription record is dropped only when both its channel and pattern sets are empty. Channel, pattern and payload bytes reach the subscription manager and the message formatters with no lossy / UTF-8-only decoding, case mapping, cutting or sorting on their interprocedural value flow. A channel / pattern entry is dropped from the global maps only when its subscriber set is empty. Every (P)(UN)SUBSCRIBE is acknowledged: the handlers, which send their replies themselves, send at least one frame on every path (nothing to unsubscribe from is answered with the nil-name acknowledgement).",
+    "C14": {"decided": "Per-connection sets and global maps updated together with the same connection id, emptied entries removed; acknowledged count = channels.len()+patterns.len() after the update; PUBLISH replies with the length of the list it delivers to; no per-connection de-duplication; pattern receivers only under a match test; closing connections always removed with full clean-up; a connection's subscription record is dropped only when both its channel and pattern sets are empty. Channel, pattern and payload bytes reach the subscription manager and the message formatters with no lossy / UTF-8-only decoding, case mapping, cutting or sorting on their interprocedural value flow. A channel / pattern entry is dropped from the global maps only when its subscriber set is empty. Every (P)(UN)SUBSCRIBE is acknowledged: the handlers, which send their replies themselves, send at least one frame on every path (nothing to unsubscribe from is answered with the nil-name acknowledgement). A bool function of the manager on a connection id consults both the channel and the pattern set, or neither.",
             "not_decided": "per-publisher order across connections, glob semantics of patterns (the matcher's backtracking algorithm is value-level: seeded change C14-glob-backtrack-pruning is recorded as not detected)."},
-    "C15": {"decided": "Explicit-ID append dominated by the id > last_id test (refusal edge effect-free); only additions write the last-ID state (field and atomics together), trim/delete never; every entry-vector change has the matching length-counter update; dispatcher arms and failure atomicity; stream-mutating engine methods never remove the key (last-ID state survives emptying); the ID parser accumulates with checked arithmetic; XADD * is refused at the top of the ID space; ID arithmetic on client-chosen IDs is checked. Sequences looked up by binary search are kept sorted by every function that grows them; a ring buffer's readers see both slices; the XLEN counter moves by the number of entries really removed. Field names and values reach the engine as the client's bytes. The inclusive end of a range read is never a saturating decrement of a search insertion point (a range before the first entry is empty). A loop reading several streams hands each the caller's COUNT itself (no running budget) and ends only by exhaustion or with an error.",
+    "C15": {"decided": "Explicit-ID append dominated by the id > last_id test (refusal edge effect-free); only additions write the last-ID state (field and atomics together), trim/delete never; every entry-vector change has the matching length-counter update; dispatcher arms and failure atomicity; stream-mutating engine methods never remove the key (last-ID state survives emptying); the ID parser accumulates with checked arithmetic; XADD * is refused at the top of the ID space; ID arithmetic on client-chosen IDs is checked. Sequences looked up by binary search are kept sorted by every function that grows them; a ring buffer's readers see both slices; the XLEN counter moves by the number of entries really removed. Field names and values reach the engine as the client's bytes. The inclusive end of a range read is never a saturating decrement of a search insertion point (a range before the first entry is empty). A loop reading several streams hands each the caller's COUNT itself (no running budget) and ends only by exhaustion or with an error. A stream entry's pairs are held in an order-keeping sequence (known finding: a HashMap); every dump writer that reads a stream's entries also reads its last ID (known finding).",
             "not_decided": "range exactness (binary-search index arithmetic), auto-ID vs wall clock."},
-    "C16": {"decided": "Both pending indexes updated together; consumer pending_count and total_pending move with the PEL; XACK counts only on the Some edge of removal; deliveries advance the cursor on both sides of NOACK; creation start position initialises the cursor; refused group administration has no effect. The per-consumer index and every other binary-searched sequence stay sorted under every insertion; idle times count from last_delivery; cached XPENDING bounds are derived from the index. The delivery cursor is read only where entries are delivered or the cursor is administered (XACK/XCLAIM/XPENDING are decided by the pending list alone). No Err result after a state mutation inside the group objects and no error reply after a state-mutating call in the handlers (refused administration and refused XREADGROUP leave groups, cursors and pending lists as they were). The position XGROUP SETID stores is the ID the client named (no clamping on its value flow).",
+    "C16": {"decided": "Both pending indexes updated together; consumer pending_count and total_pending move with the PEL; XACK counts only on the Some edge of removal; deliveries advance the cursor on both sides of NOACK; creation start position initialises the cursor; refused group administration has no effect. The per-consumer index and every other binary-searched sequence stay sorted under every insertion; idle times count from last_delivery; cached XPENDING bounds are derived from the index. The delivery cursor is read only where entries are delivered or the cursor is administered (XACK/XCLAIM/XPENDING are decided by the pending list alone). No Err result after a state mutation inside the group objects and no error reply after a state-mutating call in the handlers (refused administration and refused XREADGROUP leave groups, cursors and pending lists as they were). The position XGROUP SETID stores is the ID the client named (no clamping on its value flow). XACK's count is tied to the Some result of a single-entry removal from the pending list (found by what it does).",
             "not_decided": "exactly-once delivery across consumers over histories, XPENDING bounds values, XCLAIM idle-time semantics."},
     "C17": {"decided": "Every privileged call on the per-frame path is dominated by the pass edge of the authentication gate and unreachable from its refuse edge; nothing privileged runs per frame outside process_frame; Authenticated is stored only in three justified contexts (full password equality, per connection); failed AUTH has no side effect. Gate and Authenticated-store rules are path-sensitive (boolean flags, helpers, verdicts computed inside with_connection closures); the configured password reaches the compared field unaltered (no case mapping / lossy step on the interprocedural flow). When the configuration file cannot be loaded no server start is reachable on the error edge. The password the client supplied reaches the comparison strictly decoded or as bytes (no lossy step).",
             "not_decided": "timing side channels of the password comparison."},
@@ -399,7 +399,7 @@ CLAIMS = {
             "not_decided": "aliasing of key spaces inside the engine (databases[db] indexing is by construction)."},
     "C19": {"decided": "Every element added to a scan result lies under a successful MATCH test or under `no pattern`; expired keys and other-TYPE keys never enter SCAN's candidates; necessary condition of completeness under deletion (cursor must not be a position in a list rebuilt per call); cursor 0 at the end, monotone position. The filter rule is path-sensitive (flag variables, helpers, Option::map_or closures, iterator-chain filters); the rebuilt list is sorted on every path before a cursor indexes it. A zero cursor reaches a return only through a `position >= length` test (path-sensitive).",
             "not_decided": "completeness for a stable cursor design (iteration order of the table), COUNT as a hint, duplicates."},
-    "C20": {"decided": "Wire-tainted lengths never reach unbounded allocation, arithmetic or slicing; bounded nesting depth; serializer type byte <-> parser-built variant tables are inverse, unknown bytes are errors, null forms mirrored, no unwrap on the parse path; position advances only on Ok(Some); line-framed payloads CR/LF-filtered. No protocol error from a non-panicking content test whose bytes may not have arrived; aggregate parsers answer `incomplete` only from sub-parsers or a <=3-byte estimate; decimal buffers hold 20 bytes. Inline forms have a partial-arrival answer (chunking independence).",
+    "C20": {"decided": "Wire-tainted lengths never reach unbounded allocation, arithmetic or slicing; bounded nesting depth; serializer type byte <-> parser-built variant tables are inverse, unknown bytes are errors, null forms mirrored, no unwrap on the parse path; position advances only on Ok(Some); line-framed payloads CR/LF-filtered. No protocol error from a non-panicking content test whose bytes may not have arrived; aggregate parsers answer `incomplete` only from sub-parsers or a <=3-byte estimate; decimal buffers hold 20 bytes. Inline forms have a partial-arrival answer (chunking independence). Integer frames come from the std i64 parser and no parser function accumulates decimal digits itself; aggregate `incomplete` exits are sub-parser answers.",
             "not_decided": "round-trip equality and chunking independence as values (e.g. the inline PING special case, Double formatting)."},
 }
 NOT_APPLICABLE = {}
